@@ -87,7 +87,7 @@ EXTRA = {
  "C12": " Extreme priorities (min/max int) in the priority queue.",
  "C13": " Fine-mode variants (schedule points at every statement boundary of the queue code). Producer programs mixing the ordinary and the prior add; programs mixing blocking Pop with TryPop (sync queue).",
  "C14": " Stop before Run; one CallCtx object reused on a 2-lane and a 3-lane MultiLine (lane = IndexOf(hash) of the executor it was given to); executor options do not leak (all ordered triples of option sets through pipe.GetOption, a default MultiLine after a configured one).",
- "C15": " An LRU configuration in which every second value (cache.Value, Size 3) is bigger than the whole LRU; a configuration in which every second value written is the untyped nil; worker-count options do not leak between groups (all ordered pairs of default/2/3 workers).",
+ "C15": " An LRU configuration in which every second value (cache.Value, Size 3) is bigger than the whole LRU; a configuration in which every second value written is the untyped nil; worker-count options do not leak between groups (all ordered pairs of default/2/3 workers); a configuration with queue depth 1 (a third concurrent operation is refused).",
  "C16": " Injected Close / SetReadDeadline / SetWriteDeadline errors; Send and Close issued before Start; timed scenarios: a connection that honours read/write deadlines on a virtual discrete-event clock (silent peer, peer that does not read, heartbeats while a write is pending): a pending read/write expires at the deadline its own loop armed; manager timeouts do not leak between managers (all ordered pairs of three configurations, read off the armed deadlines). The echo manager (stcp/echo.go) behind the same accept loop: count never above the maximum, surplus connections closed.",
  "C17": " Constructor parameters: the four sharded LRU constructors x 1..211 shards x capacity 1,2,shards-1..shards+1,2*shards+1: every key of a family reaches an existing shard, is readable right after Set and gone after Delete; the shard-count option does not leak between ReMap instances (all ordered triples of default/2/3/211). Binding capacity: sharded LRUs (1-2 shards, capacity 1/3, both variants and routings) against per-shard unsharded LRUs routed by the public index - every answer and eviction, all sequences to depth 4/5, no state merging.",
  "C18": " Special error values (gorm.ErrInvalidTransaction, sql.ErrTxDone, driver.ErrBadConn, context errors) as step results; nested Transact on the step's own handle (result ignored / returned) and Transact on a handle the caller already began a transaction on: no step, an error, no driver event, the caller's transaction still finishable. Lists of length <= 2 also under the global log levels info/error/dpanic/fatal.",
